@@ -45,7 +45,8 @@ Import ListNotations.
 
 Inductive res := Ok | Err.
 
-(* the repairs of the pinned code that the model carries as switches:
+(* the repairs that the model carries as switches (both have landed in the repository;
+   mkFx true true is the code as it is, a false switch is the code before that repair):
    f11  a connection whose set-up fails after it was opened is closed by the set-up thread
    f43  accepted connections are tracked from the start of the Listen callback until it
         returns (Router.negotiating + a wait-group slot); Stop closes them and waits *)
